@@ -87,12 +87,21 @@ Theorem C10_parent_refuted_prepend :
 Proof. exact parent_current_prepend_clobbers. Qed.
 Print Assumptions C10_parent_refuted_prepend.
 
-(* cg_poly_elements_read AS IT IS (variant RCurrent): REFUTED -- NGON_n stored as I4, one partial write, full read
-   in the same session fails; the proposed repair (RFixed) answers the slice. *)
+(* cg_poly_elements_read is total on well-formed sections: the statement, per variant of its "double check". *)
 Definition C10_poly_read_total (rv : rvariant) : Prop :=
-  run PFixed rv None hist_polyread <> RErr.
+  run PFixed rv None hist_polyread <> RErr /\ run PFixed rv None hist_polyread_slack <> RErr.
+(* historical code (ROld, before /repo 98748ad): REFUTED by the I4-cached witness; the code as it is answers it *)
+Theorem C10_poly_read_old_refuted : ~ C10_poly_read_total ROld.
+Proof. intros [H _]. exact (H polyread_old_fails). Qed.
+Print Assumptions C10_poly_read_old_refuted.
+Theorem C10_poly_read_i4_cached_ok :
+  exists st, run PFixed RCurrent None hist_polyread = ROk (st, [[0;0;1;2;3;0;0]; [0;2;5;7]]).
+Proof. exact polyread_current_ok. Qed.
+Print Assumptions C10_poly_read_i4_cached_ok.
+(* code AS IT IS (RCurrent): still REFUTED by the reserved-space witness (cg_section_general_write reserves 14
+   values for 2 elements, a partial read caches the node, the full read fails its count == ElementDataSize test) *)
 Theorem C10_poly_read_refuted : ~ C10_poly_read_total RCurrent.
-Proof. intros H. exact (H polyread_current_fails). Qed.
+Proof. intros [_ H]. exact (H polyread_slack_current_fails). Qed.
 Print Assumptions C10_poly_read_refuted.
 
 (* Rebased start offsets of a partial read: off'[i] = off[i] - off[0], off'[0] = 0. *)
@@ -144,5 +153,5 @@ Example parent_fixed_append :
     = ROk (st, [conn; [11;12;13;14;0;0; 21;22;23;24;0;0; 31;32;33;34;0;0; 41;42;43;44;0;0]]).
 Proof. exact parent_fixed_append_ok. Qed.
 Example poly_read_fixed :
-  exists st, run PFixed RFixed None hist_polyread = ROk (st, [[0;0;1;2;3;0;0]; [0;2;5;7]]).
-Proof. exact polyread_fixed_ok. Qed.
+  exists st tail, run PFixed RFixed None hist_polyread_slack = ROk (st, [[0;0;0;0] ++ tail; [0;2;4]]).
+Proof. exact polyread_slack_fixed_ok. Qed.
